@@ -304,16 +304,20 @@ func (a *Agent) ListKeys() (*serf.KeyResponse, error) {
 // SetTags is used to update the tags. The agent will make sure to
 // persist tags if necessary before gossiping to the cluster.
 func (a *Agent) SetTags(tags map[string]string) error {
-	// Update the tags file if we have one
+	// Set the tags in Serf first (it rejects tags that exceed the metadata
+	// limit), start gossiping out
+	if err := a.serf.SetTags(tags); err != nil {
+		return err
+	}
+
+	// Update the tags file if we have one, now that the tags are in effect
 	if a.agentConf.TagsFile != "" {
 		if err := a.writeTagsFile(tags); err != nil {
 			a.logger.Printf("[ERR] agent: %s", err)
 			return err
 		}
 	}
-
-	// Set the tags in Serf, start gossiping out
-	return a.serf.SetTags(tags)
+	return nil
 }
 
 // loadTagsFile will load agent tags out of a file and set them in the
